@@ -10,7 +10,9 @@ One statement per option whose effect is textual; each is a corollary of a model
   line after blanks and `#` is not seen by the loader (C09);
 * `compact`: `compact_tokens_same_value` — every symbolic token denotes the same number in both output modes (C08);
 * `remove_labels`: `label_is_next_instruction_index` — the number that replaces a label is the index of the instruction that
-  follows it, and removal keeps the instruction lines in order (C05);
+  follows it, and removal keeps the instruction lines in order (C05); `remove_labels_preserves_behaviour` — on the machine,
+  the program without its label lines produces the same effect traces as the program with them (programs of direct control
+  flow; C05 `label_removal_preserves_traces`);
 * options given by `# pytrapic:` comments: `pragma_equals_api` (C15).
 For `inline_functions`, `tail_call_optimization` and `use_push_pop_functions` (different lowerings of the same source) no
 theorem about the real generator exists; they are explored by running the real outputs of one source under many option
@@ -38,5 +40,17 @@ theorem label_is_next_instruction_index (l : String) (pre post : List PV.Labels.
 theorem pragma_equals_api {R : Type} (core : List Char → PV.Pragma.Opts → R) (src : List Char) (o : PV.Pragma.Opts) :
     (fun s b => core s (PV.Pragma.scan s b)) src (PV.Pragma.scan src o) = (fun s b => core s (PV.Pragma.scan s b)) src o :=
   PV.Props.C15.scan_eq_api core src o
+
+/-- `remove_labels` on the machine: deleting the label lines `L` and renumbering the jump targets changes no effect trace and
+    no halting behaviour — every environment, any number of steps; the labelled program only spends extra steps on its label
+    lines (programs without `jal` / relative branches: `PV.Strip.Ok`) -/
+theorem remove_labels_preserves_behaviour {R V : Type} [DecidableEq R] [PV.IC10.Special R] (sem : PV.IC10.Sem V) (lit : Nat → V)
+    (L : Nat → Bool) (env : PV.IC10.Env V) (P : List (PV.IC10.Instr R V)) (hok : PV.Strip.Ok sem lit L P) (regs : R → V) (mem : Nat → V) :
+    let s0 : PV.IC10.St R V := ⟨regs, mem, 0, [], false⟩
+    (∀ m, ∃ k, k ≤ m ∧ (PV.IC10.run sem env P m s0).trace = (PV.IC10.run sem env (PV.Strip.strip sem lit L P) k s0).trace ∧
+        (PV.IC10.run sem env P m s0).halted = (PV.IC10.run sem env (PV.Strip.strip sem lit L P) k s0).halted) ∧
+    (∀ k, ∃ m, k ≤ m ∧ (PV.IC10.run sem env P m s0).trace = (PV.IC10.run sem env (PV.Strip.strip sem lit L P) k s0).trace ∧
+        (PV.IC10.run sem env P m s0).halted = (PV.IC10.run sem env (PV.Strip.strip sem lit L P) k s0).halted) :=
+  PV.Props.C05.label_removal_preserves_traces sem lit L env P hok _ _ (PV.Props.C05.initial_states_related L regs mem)
 
 end PV.Props.C02
